@@ -43,8 +43,11 @@ import (
 	"github.com/ozontech/seq-db/frac/processor"
 	"github.com/ozontech/seq-db/fracmanager"
 	"github.com/ozontech/seq-db/logger"
+	"github.com/ozontech/seq-db/mappingprovider"
 	"github.com/ozontech/seq-db/parser"
+	pbapi "github.com/ozontech/seq-db/pkg/storeapi"
 	"github.com/ozontech/seq-db/seq"
+	sapi "github.com/ozontech/seq-db/storeapi"
 	"github.com/ozontech/seq-db/verifhook"
 
 	"verifharness/internal/vh"
@@ -1335,11 +1338,15 @@ type sysCase struct {
 	// RIDs per MID), every third pair is a LATE delivery 20..120 minutes older than the fraction that receives it (such
 	// a fraction gets a time-occupancy map when sealed); ids found by search are also fetched WITH the search's hints
 	rt bool
+	// big fetch (`sysb`): documents of `big` bytes; op `F` = ONE store-API Fetch request (real GrpcV1.Fetch, its docs
+	// stream and batch loader) with all delivered ids; only the F ops are checked
+	big int
 }
 
 const fatToks = 400
 
 var sysFatEvery = 0  // set by runSys for the case at hand
+var sysBigSize = 0   // != 0: size of every document (set by runSys)
 var sysRTBase uint64 // != 0: real-time ids relative to this wall-clock millisecond (set by runSys)
 
 func (c sysCase) String() string {
@@ -1348,6 +1355,9 @@ func (c sysCase) String() string {
 	}
 	if c.rt {
 		return fmt.Sprintf("sysr docs=%d ops=%s", c.k, strings.Join(c.ops, ";"))
+	}
+	if c.big > 0 {
+		return fmt.Sprintf("sysb docs=%d size=%d ops=%s", c.k, c.big, strings.Join(c.ops, ";"))
 	}
 	return fmt.Sprintf("sys docs=%d ops=%s", c.k, strings.Join(c.ops, ";"))
 }
@@ -1358,6 +1368,13 @@ func parseSys(line string) (sysCase, error) {
 	if strings.HasPrefix(line, "sysl ") {
 		c.long = true
 		if _, err := fmt.Sscanf(line, "sysl docs=%d fat=%d ops=%s", &c.k, &c.fat, &ops); err != nil {
+			return c, err
+		}
+		c.ops = strings.Split(ops, ";")
+		return c, nil
+	}
+	if strings.HasPrefix(line, "sysb ") {
+		if _, err := fmt.Sscanf(line, "sysb docs=%d size=%d ops=%s", &c.k, &c.big, &ops); err != nil {
 			return c, err
 		}
 		c.ops = strings.Split(ops, ";")
@@ -1384,6 +1401,14 @@ func idxList(s string) []int {
 		return r
 	}
 	for _, p := range strings.Split(s, ".") {
+		if ab := strings.SplitN(p, "-", 2); len(ab) == 2 { // a-b: the range a..b
+			a, _ := strconv.Atoi(ab[0])
+			b, _ := strconv.Atoi(ab[1])
+			for v := a; v <= b; v++ {
+				r = append(r, v)
+			}
+			continue
+		}
 		v, _ := strconv.Atoi(p)
 		r = append(r, v)
 	}
@@ -1404,6 +1429,9 @@ func joinIdx(idx []int) string {
 // document i of the system oracle's universe
 func sysDoc(i int) meta {
 	m := meta{mid: uint64(1000 + 3*i), rid: uint64(500 + i), doc: i + 1, size: uint32(minPayload + 4 + 5*(i%4))}
+	if sysBigSize != 0 {
+		m.size = uint32(sysBigSize + i%7)
+	}
 	if sysRTBase != 0 {
 		g := uint64(i / 2) // documents 2g and 2g+1 share their millisecond
 		switch g % 3 {
@@ -1752,9 +1780,47 @@ func checkStore(s *sysStore, k int, have map[int]bool, crossFraction bool, stage
 	return nil
 }
 
+// apiFetchAll: ONE Fetch request through the store API (real GrpcV1.Fetch: docs stream, batch loader, Fetcher) with the
+// bare ids of all delivered documents, newest first; every answer must carry its id and that document's own bytes
+func apiFetchAll(s *sysStore, k int, have map[int]bool, stage string) *sysViolation {
+	mp, err := mappingprovider.New("", mappingprovider.WithMapping(seq.TestMapping))
+	if err != nil {
+		return &sysViolation{"harness", err.Error()}
+	}
+	client := sapi.VerifC17InMemoryClient(s.fm, mp, filepath.Join(s.dir, "async"))
+	var want []int
+	for i := k - 1; i >= 0; i-- {
+		if have[i] {
+			want = append(want, i)
+		}
+	}
+	req := &pbapi.FetchRequest{}
+	for _, i := range want {
+		req.Ids = append(req.Ids, sysDoc(i).id().String())
+	}
+	stream, err := client.Fetch(context.Background(), req)
+	if err != nil {
+		return &sysViolation{"fetch-error", fmt.Sprintf("%s: store-API fetch of %d ids: %v", stage, len(want), err)}
+	}
+	for n, i := range want {
+		msg, err := stream.Recv()
+		if err != nil {
+			return &sysViolation{"fetch-error", fmt.Sprintf("%s: store-API fetch stream ended after %d of %d documents: %v", stage, n, len(want), err)}
+		}
+		d := sysDoc(i)
+		block := disk.DocBlock(msg.Data)
+		if block.GetExt1() != d.mid || block.GetExt2() != d.rid || !bytes.Equal(block.Payload(), payload(d.doc, d.size)) {
+			return &sysViolation{"api-fetch-wrong-bytes", fmt.Sprintf("%s: answer %d of %d of one store-API fetch request: asked for document %d (%s), got id %d.%d with the body of document %s (%d bytes)",
+				stage, n+1, len(want), i, fmtID(d.id()), block.GetExt1(), block.GetExt2(), payloadDoc(block.Payload()), len(block.Payload()))}
+		}
+	}
+	return nil
+}
+
 // runSys executes one history on a real store; returns nil when every check passed
 func runSys(c sysCase) *sysViolation {
 	sysFatEvery = 0
+	sysBigSize = c.big
 	sysRTBase = 0
 	if c.rt {
 		sysRTBase = uint64(time.Now().UnixMilli())
@@ -1826,6 +1892,11 @@ func runSys(c sysCase) *sysViolation {
 			if err := deliver(idxList(p[1]), t); err != nil {
 				return &sysViolation{"bulk-error", stage + ": " + err.Error()}
 			}
+		case op == "F":
+			s.fm.WaitIdle()
+			if v := apiFetchAll(s, c.k, have, stage); v != nil {
+				return v
+			}
 		case strings.HasPrefix(op, "W"):
 			p := strings.SplitN(op[1:], ":", 2)
 			if len(p) != 2 {
@@ -1861,6 +1932,9 @@ func runSys(c sysCase) *sysViolation {
 			continue
 		}
 		if c.long && op != "S" && op != "R" && n != len(c.ops)-1 && n%60 != 59 {
+			continue
+		}
+		if c.big > 0 {
 			continue
 		}
 		if v := checkStore(s, c.k, have, cross, stage); v != nil {
@@ -2096,7 +2170,7 @@ func main() {
 		for _, l := range lines {
 			f := strings.Fields(l)
 			switch {
-			case len(f) > 0 && (f[0] == "sys" || f[0] == "sysl" || f[0] == "sysr"):
+			case len(f) > 0 && (f[0] == "sys" || f[0] == "sysl" || f[0] == "sysr" || f[0] == "sysb"):
 				if c, err := parseSys(l); err == nil {
 					sysCases = append(sysCases, c)
 					sysTags = append(sysTags, []string{"replay", "repeat"})
@@ -2198,6 +2272,31 @@ func main() {
 			lc.ops = append(lc.ops, "S", "R")
 			sysCases = append(sysCases, lc)
 			sysTags = append(sysTags, []string{"gen=long-one-worker", "repeat", "op=seal", "op=restart"})
+		}
+		// the shape of many retries through ONE index worker: 60 bulks of 4 documents, each delivered 4 times
+		{
+			lc := sysCase{k: 240, long: true, fat: 0}
+			for b := 0; b < 60; b++ {
+				for rep := 0; rep < 4; rep++ {
+					lc.ops = append(lc.ops, fmt.Sprintf("B%d-%d", 4*b, 4*b+3))
+				}
+			}
+			lc.ops = append(lc.ops, "S", "R")
+			sysCases = append(sysCases, lc)
+			sysTags = append(sysTags, []string{"gen=long-one-worker", "repeat", "op=whole-repeat", "op=seal", "op=restart"})
+		}
+		// one store-API fetch with 1600 ids of ~8 KiB documents: 16 bulks of 100, each delivered twice plus a partial overlap
+		{
+			bc := sysCase{k: 1600, big: 8000}
+			for b := 0; b < 16; b++ {
+				bc.ops = append(bc.ops, fmt.Sprintf("B%d-%d", 100*b, 100*b+99), fmt.Sprintf("B%d-%d", 100*b, 100*b+99))
+				if b > 0 {
+					bc.ops = append(bc.ops, fmt.Sprintf("B%d-%d", 100*b-30, 100*b+29))
+				}
+			}
+			bc.ops = append(bc.ops, "F", "S", "F")
+			sysCases = append(sysCases, bc)
+			sysTags = append(sysTags, []string{"gen=big-api-fetch", "repeat", "op=whole-repeat", "op=seal"})
 		}
 		r := rng.Fork()
 		for i := 0; i < o.Pick(250, 1500); i++ {
